@@ -10,6 +10,19 @@
 (*   degen  : degenerate table, a = k-table mode, b = cross-section mode:       *)
 (*            equal (slack: licensed clamp excess, in units, 0 if none)         *)
 (*   bounds : hot/cold bounds and isothermal identity in k-table mode           *)
+(*   twin   : ONE evaluation inside a history walk (spec/KTableHistory.tla) of  *)
+(*            a long-lived or fresh k-table object / model and of its cross-    *)
+(*            section twin on the same request.  nk, nx: lengths of the two     *)
+(*            returned grids (nreq: the number of requested points when the     *)
+(*            result must be on exactly those, else 0), gdev: largest           *)
+(*            difference of the grids (1e-9 cm-1),                              *)
+(*            ng / ngw: quadrature columns returned / weights of the table;     *)
+(*            rel = "equal" (degenerate table): dev = largest relative          *)
+(*            difference in units of 1e-12, slack = licensed exp(-10) clamp of  *)
+(*            the cross-section emission branch in the same units (0 if the     *)
+(*            evaluated grid is not saturated everywhere);                      *)
+(*            rel = "jensen" (generic table, twin = weight-averaged             *)
+(*            coefficient): lo = min(tk - tx), tmin, tmax of tk scaled by S     *)
 EXTENDS Integers, Sequences, TLC, Json, IOUtils, TLCExt, Dyad
 VARIABLE l
 TraceLog == ndJsonDeserialize(IOEnv.TRACE_FILE)
@@ -30,10 +43,18 @@ DegenOk(e)  == /\ Len(e.a) = Len(e.b)
                /\ \A i \in 1..Len(e.a) : Abs(e.a[i] - e.b[i]) <= Tol + e.slack
 BoundsOk(e) == e.lo >= e.S - Tol /\ e.hi <= e.S + Tol
 
+TwinTol == 1000
+TwinOk(e) == /\ e.nk = e.nx /\ e.nk > 0 /\ e.gdev = 0 /\ e.ng = e.ngw
+             /\ (e.nreq = 0 \/ e.nk = e.nreq)
+             /\ CASE e.rel = "equal"  -> e.dev >= 0 /\ e.dev <= TwinTol + e.slack
+                  [] e.rel = "jensen" -> e.lo >= 0 - Tol /\ e.tmin >= 0 /\ e.tmax <= e.S
+                  [] OTHER -> FALSE
+
 Ok(e) == CASE e.ev = "wavg"   -> WavgOk(e)
            [] e.ev = "jensen" -> JensenOk(e)
            [] e.ev = "degen"  -> DegenOk(e)
            [] e.ev = "bounds" -> BoundsOk(e)
+           [] e.ev = "twin"   -> TwinOk(e)
            [] OTHER -> FALSE
 Init == l = 1
 Step == /\ l <= Len(TraceLog)
